@@ -124,7 +124,7 @@ class C09(PropBase):
     def gen(self, rng, tier, focus=None):
         out = []
         q = tier == "quick"
-        per = 12 if q else 400
+        per = 20 if q else 400
         # boundary classes, every algorithm each
         for alg in ALGOS:
             for _ in range(per):
@@ -141,9 +141,11 @@ class C09(PropBase):
                 out.append(self.mk_case(rng, alg, "selectors", selectors="all"))
                 out.append(self.mk_case(rng, alg, "audit-off", audit=False))
                 out.append(self.mk_case(rng, alg, "audit-off:dup", audit=False, dup="inside"))
+            for _ in range(2 if q else 20):
+                out.append(self.mk_case(rng, alg, "dup:many", dup="many"))
         for name in BAD_ALGOS:
             out.append(self.mk_case(rng, name, "bad-algorithm", audit=rng.random() < 0.5))
-        n = 600 if q else 30000
+        n = 3000 if q else 30000
         for _ in range(n):
             out.append(self.mk_case(rng, rng.choice(ALGOS), "random",
                                     audit=rng.random() < 0.85,
@@ -203,11 +205,19 @@ class C09(PropBase):
     def mk_case(self, rng, alg, kind, audit=True, uuid_case="lower", missing=None, dup=None, flt=None, selectors="some"):
         cfg = {"audit": audit, "hash": alg}
         n = rng.choice([1, 2, 3, 4, 5, 6, 8, 12]) if dup is None else rng.choice([2, 3, 4, 5, 6, 8])
+        if dup == "many":
+            n = rng.choice([20, 22, 26])     # >= 10 duplicated UUIDs: the other branch of the error message
         p_uuid = 1.0 if audit else rng.choice([0.0, 0.5, 1.0])
         opts = {"p_invalid": 0.0, "n_txns": n, "p_uuid": p_uuid, "p_price": 0.1, "p_opening": 0.0, "p_loc": 0.1,
                 "p_tags": 0.15, "p_comments": 0.1, "comms": common.COMMS[:2]}
         txns = common.gen_journal(rng, cfg, opts)
         dup_idx = None
+        if dup == "many":
+            for i in range(n // 2):
+                if txns[2 * i]["uuid"] is None:
+                    txns[2 * i]["uuid"] = common.gen_uuid(rng)
+                txns[2 * i + 1]["uuid"] = txns[2 * i]["uuid"]
+            dup, flt = None, rng.choice(["all", "true"])
         if dup is not None:
             i, j = rng.sample(range(n), 2)
             if txns[i]["uuid"] is None:
@@ -443,6 +453,50 @@ class C09(PropBase):
             if got != expsel:
                 return {"sig": "selector-checksum:" + rname, "what": "%s prints selector checksum %s for %s, expected %s" % (rname, got, ras, expsel)}
         return None
+
+    def rerender(self, case, txns):
+        c = copy.deepcopy(case)
+        c["txns"] = txns
+        c["text"] = common.render_journal(txns)
+        return c
+
+    def shrink(self, failure):
+        """drop transactions (then selector lists) while the oracle keeps failing with the same signature"""
+        case = failure["case"]
+        if case.get("op") != "audit":
+            return failure
+        sig = failure["oracle"].get("sig")
+        best = failure
+
+        def attempt(c):
+            impl = common.run_driver([common.TK_IMPL], [self.impl_case(c)], jobs=1)[0]
+            of = self.oracle(c, impl)
+            if of and of.get("sig") == sig:
+                return dict(case=c, impl=impl, model=None, oracle=of)
+            return None
+
+        changed = True
+        while changed and len(best["case"]["txns"]) > 1:
+            changed = False
+            ts = best["case"]["txns"]
+            for i in range(len(ts)):
+                r = attempt(self.rerender(best["case"], ts[:i] + ts[i + 1:]))
+                if r:
+                    best, changed = r, True
+                    break
+        for rname in list(best["case"].get("selectors", {})):
+            if sig.endswith(rname):
+                continue
+            c = copy.deepcopy(best["case"])
+            c["selectors"].pop(rname, None)
+            c["cfg"].pop(SEL_KEY[rname], None)
+            r = attempt(c)
+            if r:
+                best = r
+        if best is not failure:
+            best["model"] = common.run_driver([common.TK_MODEL], [self.model_case(best["case"])], jobs=1)[0]
+            best["case"]["shrunk_from"] = common.case_hash(self.impl_case(case))
+        return best
 
     def nontrivial(self, case, impl):
         if case["op"] == "hash":
